@@ -3,7 +3,7 @@
    NV.Bam.Decode (io/reader/record.rs, record/codec/decoder*.rs, slices of record_ref.rs),
    bin = NV.Index.Bins.reg2bin 14 5 (shared with C17). *)
 From Coq Require Import List NArith ZArith Bool Lia ZifyBool ZifyNat ZifyN.
-From NV Require Import Index.Bins Bam.Record Bam.Encode Bam.Decode Bam.Lazy Bam.CodecProofs Bam.AuxProofs Bam.LazyProofs Bam.LazyCigarProofs Bam.LazyDataProofs Bam.LazySwitchProofs Bam.File Bam.FileProofs Bam.FileBgzf Bam.FileBgzfProofs Bam.FileSchedProofs.
+From NV Require Import Index.Bins Bam.Record Bam.Encode Bam.Decode Bam.Lazy Bam.CodecProofs Bam.AuxProofs Bam.LazyProofs Bam.LazyCigarProofs Bam.LazyDataProofs Bam.LazySwitchProofs Bam.File Bam.FileProofs Bam.FileBgzf Bam.FileBgzfProofs Bam.FileSchedProofs Bam.Reuse Bam.ReuseProofs.
 From NV Require Sam.Header Sam.HeaderProofs Sam.BamHeader Bgzf.Frame Bgzf.Writer Bgzf.Reader Bgzf.Inflate Io.Source Io.ReadExactProofs Io.Run.
 Import ListNotations.
 Open Scope N_scope.
@@ -521,3 +521,27 @@ Example c05_example_file :
     read_file (firstn (length bs - 1) bs) = Ok (ex_header, ([norm ex_rec], EndErr UnexpectedEof)).
 Proof. eexists. split; [vm_compute; reflexivity|]. split; vm_compute; reflexivity. Qed.
 
+(* ------------------------------------------------------------------------------------------
+   REUSED RecordBuf.  decoder.rs::decode writes INTO the caller's RecordBuf, which still holds the
+   previous record when bam::io::Reader::read_record_buf is called repeatedly with one buffer or
+   through Reader::record_bufs().  NV.Bam.Reuse.decode_into models buffer state in -> record out:
+   scalars are assigned, the name is take()n, resized and overwritten, CIGAR / sequence / data are
+   clear()ed and refilled, the quality scores are clear()ed when l_seq = 0 or all 0xff and otherwise
+   resized and overwritten.  The result never depends on the previous contents: it is the decode
+   into a fresh buffer, for every record body and every buffer state; hence the whole iteration
+   with one reused buffer yields the same records and the same end as with fresh buffers. *)
+Theorem c05_reused_recordbuf_independent :
+  (forall prev bs, decode_into prev bs = decode_body bs) /\
+  (forall p1 p2 bs, decode_into p1 bs = decode_into p2 bs) /\
+  (forall fuel prev bs, read_records_reused fuel prev bs = read_records fuel bs).
+Proof. split; [exact decode_into_eq|]. split; [exact decode_into_independent|exact read_records_reused_eq]. Qed.
+Print Assumptions c05_reused_recordbuf_independent.
+
+(* non-vacuity: the buffer holds ex_rec_data (name, 5 bases, 5 qualities, 4 operations, 14 fields);
+   the default record (no name, l_seq = 0, no operation, no data) decoded into it comes back bare;
+   and the Vec model is sensitive: without the clear() the old qualities would stay *)
+Example c05_example_reuse :
+  exists body, encode_body 0 (mkRecord None 4 None None None [] None None 0%Z [] [] []) = Ok body /\
+    decode_into ex_rec_data body = Ok (mkRecord None 4 None None None [] None None 0%Z [] [] []) /\
+    vresize (r_qual ex_rec_data) 0 = [] /\ r_qual ex_rec_data <> [].
+Proof. eexists. split; [vm_compute; reflexivity|]. split; [vm_compute; reflexivity|]. split; [reflexivity|discriminate]. Qed.
